@@ -18,7 +18,7 @@ struct GravRef {     // everything REF knows at one geocentric point
 struct GravSetup {
   ref::EgmMeta em; ref::CoefSet grav, corr; ref::HarmNorm rn; int Nmax, Mmax;
   Q a, f, GMr, GMm, am, om;         // reference ellipsoid in float128 (f solved from J2 if the file gives J2)
-  DenseSet dg, dc, dz, dzS;         // model (C00 = 1), correction, normal zonal terms (all n / library's schmidt variant)
+  DenseSet dg, dc, dz, dzS, dzA;    // model (C00 = 1), correction, normal zonal terms (all n / library's schmidt variant / magnitudes of their parts)
   int nz;                           // highest even degree <= model degree
 };
 
@@ -44,7 +44,7 @@ static void grav_ref_at(const GravSetup& G, Q X, Q Y, Q Z, GravRef& o) {
   // as implemented: harmonic difference with the normal zonal terms up to the model's degree only
   ref::Legendre Lf; const ref::Legendre* Lz = &L;
   ref::HarmResult z = ref::harm_sum(*Lz, g, G.am, G.dz.C, G.dz.S, G.nz, 0, true);       // zonal terms n = 2..nz (dense has n up to 60)
-  ref::HarmResult zall = ref::harm_sum(*Lz, g, G.am, G.dz.C, G.dz.S, 60, 0, true);
+  ref::HarmResult zall = ref::harm_sum(*Lz, g, G.am, G.dz.C, G.dz.S, 60, 0, true, &G.dzA.C, &G.dzA.S);
   ref::HarmResult zs = ref::harm_sum(*Lz, g, G.am, G.dzS.C, G.dzS.S, G.nz, 0, true);
   Q q00 = G.am / g.r;                                               // the (0,0) term of the model sum (C00 = 1)
   Q ir = 1 / g.r;
@@ -117,7 +117,12 @@ static void sec_gravity(Ctx& c, uint64_t idx) {
     Q mult = G.GMr / G.GMm;
     for (int n = 2; n <= 60; n += 2) { mult *= (G.a / G.am) * (G.a / G.am); Q jn = ng.Jn(n);
       G.dz.C[ref::tri(n, 0)] = -mult * jn / (G.rn == ref::HARM_FULL ? sqrtq((Q)(2 * n + 1)) : (Q)1);
-      G.dzS.C[ref::tri(n, 0)] = -mult * jn / sqrtq((Q)(2 * n + 1)); } }
+      G.dzS.C[ref::tri(n, 0)] = -mult * jn / sqrtq((Q)(2 * n + 1)); }
+    // magnitudes of the parts J_n is made of (H&M 2-90, 2-92: e^2/3 and the rotational term, which may cancel), for the condition number of T
+    G.dzA = G.dz; Q mrot = G.om * G.om * G.a * G.a * G.a / fabsq(G.GMr), J2parts = fabsq(ng.e2) / 3 + mrot / 3 * 2; mult = fabsq(G.GMr / G.GMm);
+    for (int n = 2; n <= 60; n += 2) { mult *= (G.a / G.am) * (G.a / G.am); int k = n / 2;
+      Q parts = 3 * powq(fabsq(ng.e2), k - 1) * (fabsq(ng.e2) * (k + 1) + 5 * k * J2parts) / ((Q)(2 * k + 1) * (2 * k + 3));
+      G.dzA.C[ref::tri(n, 0)] = mult * parts / (G.rn == ref::HARM_FULL ? sqrtq((Q)(2 * n + 1)) : (Q)1); } }
   // inspectors
   { int dgm = std::max(G.dg.nmx, G.dc.nmx < 0 ? 0 : G.dc.nmx), om = std::max(G.dg.mmx, G.dc.mmx < 0 ? 0 : G.dc.mmx);
     if (M->Degree() != dgm || M->Order() != om) c.viol("oracle:C19/gravity/degree-order-inspectors", cls0, J(mw).i("Degree", M->Degree()).i("Order", M->Order()).i("want_degree", dgm).i("want_order", om));
